@@ -441,3 +441,15 @@ Proof.
   assert (valid_chunk cs) as Hvc by (apply Hv; eauto). rewrite (Hr r0 Hn) in *.
   eapply disciplined_honest; eauto; [apply rinv_new; auto|cbn; discriminate].
 Qed.
+
+(* tactics for concrete examples of [disciplined] histories *)
+Ltac step_disc :=
+  cbn [disciplined];
+  match goal with
+  | |- context [bstep ?r ?e] =>
+      let v := eval vm_compute in (bstep r e) in change (bstep r e) with v; cbv iota beta
+  end.
+Ltac solve_ans :=
+  let off := fresh "off" in let Hin := fresh "Hin" in let L := fresh "L" in
+  intros off Hin L; vm_compute in L; try discriminate L;
+  repeat (destruct Hin as [Hin|Hin]; [inversion Hin; subst; vm_compute; reflexivity|]); destruct Hin.
